@@ -63,7 +63,9 @@ pub(crate) struct Run {
 }
 
 fn run_strategy() -> impl Strategy<Value = Run> {
-    (any::<u8>(), any::<u32>(), prop_oneof![3 => 1u8..6, 2 => 1u8..40, 1 => 40u8..120], any::<u16>(), 0u8..8, any::<u32>())
+    // first glyph id: any; or at / just below the wrap to glyph 0 (a consecutive run then passes through 0, 1, 2, ...)
+    let gid0 = prop_oneof![10 => any::<u16>(), 1 => Just(0u16), 1 => 0xFFF8u16..=0xFFFF, 1 => 1u16..4];
+    (any::<u8>(), any::<u32>(), prop_oneof![3 => 1u8..6, 2 => 1u8..40, 1 => 40u8..120], gid0, 0u8..8, any::<u32>())
         .prop_map(|(sel, rnd, len, gid0, kind, holes)| Run { sel, rnd, len, gid0, kind, holes })
 }
 
